@@ -28,6 +28,7 @@ static inline void give(int t, void* p) { size_t k = page_index(p); vf_check(__a
 #define FREE1(slot) do { give(T, held[T][slot]); pa->deallocate(held[T][slot]); held[T][slot] = nullptr; } while (0)
 #define ALLOC2(s0) do { void* ps[2]; pa->allocate(ps, 2); take(T, ps[0], s0); take(T, ps[1], s0 + 1); } while (0)
 #define FREE2(s0) do { void* ps[2] = {held[T][s0], held[T][s0 + 1]}; give(T, ps[0]); give(T, ps[1]); pa->deallocate(ps, 2); held[T][s0] = held[T][s0 + 1] = nullptr; } while (0)
+#define FREE3(s0) do { void* ps[3] = {held[T][s0], held[T][s0 + 1], held[T][s0 + 2]}; give(T, ps[0]); give(T, ps[1]); give(T, ps[2]); pa->deallocate(ps, 3); held[T][s0] = held[T][s0 + 1] = held[T][s0 + 2] = nullptr; } while (0)
 #define BODY(n) extern "C" void vf_thread_##n() { constexpr int T = n; (void)T; VF_T##n; }
 #define PRO(n) extern "C" void vf_prologue_##n() { pa->_cache_hit << ConcurrentSummer::Summary {0, 0}; }
 extern "C" void vf_init() { pa = new CachedPageAllocator; pa->set_upstream(up); pa->set_free_page_capacity(VF_CAP);
